@@ -34,7 +34,7 @@ Theorem C12_same_limits_pointwise :
     exists g, guard_at src_guards (d_key r) s = Some g /\
               (is_np x = false -> accepts g x = in_range (d_range r) x) /\
               (accepts g x = true -> in_range (d_range r) x = true).
-Proof. intros r s x k Hr Hw Hk. exact (C12_same_limits r s x k Hr Hw Hk eq_refl). Qed.
+Proof. exact (same_limits_pointwise _ _ C12_same_limits). Qed.
 Print Assumptions C12_same_limits_pointwise.
 
 (* constructor and setter of a field agree with each other on every int / float carried value *)
@@ -43,12 +43,7 @@ Theorem C12_ctor_equals_setter :
     In r documented -> well_kinded (d_range r) x = true -> class_of x = Some k -> is_np x = false ->
     exists gc gs, guard_at src_guards (d_key r) SCtor = Some gc /\ guard_at src_guards (d_key r) SSetter = Some gs /\
                   accepts gc x = accepts gs x.
-Proof.
-  intros r x k Hr Hw Hk Hn.
-  destruct (C12_same_limits r SCtor x k Hr Hw Hk eq_refl) as [gc [Hgc [Hc _]]].
-  destruct (C12_same_limits r SSetter x k Hr Hw Hk eq_refl) as [gs [Hgs [Hs _]]].
-  exists gc, gs. repeat split; try assumption. rewrite (Hc Hn), (Hs Hn). reflexivity.
-Qed.
+Proof. exact (ctor_equals_setter _ _ C12_same_limits). Qed.
 Print Assumptions C12_ctor_equals_setter.
 
 (* non-vacuity: an instance spelled out; and the number of well-kinded (field, side, value class) triples covered *)
@@ -57,12 +52,10 @@ Example C12_same_limits_instance :
     guard_at src_guards (CCharacteristics, "quantum_efficiency") SCtor = Some g /\
     accepts g (VNum q) = Qle_bool 0 q && Qle_bool q 1.
 Proof.
-  intro q.
-  destruct (C12_same_limits
-              (DocRow (CCharacteristics, "quantum_efficiency") (closed 0 1) true) SCtor (VNum q) KNum)
-    as [g [Hg [Ha _]]]; try reflexivity.
-  - simpl. tauto.
-  - exists g. split; [exact Hg | exact (Ha eq_refl)].
+  exact (same_limits_num_instance documented src_guards
+           (DocRow (CCharacteristics, "quantum_efficiency") (closed 0 1) true) SCtor C12_same_limits
+           (or_intror (or_intror (or_intror (or_intror (or_intror (or_intror (or_introl eq_refl)))))))
+           (ex_intro _ _ (ex_intro _ _ eq_refl))).
 Qed.
 
 Example C12_same_limits_instances :
@@ -195,7 +188,7 @@ Theorem C12_derived_keeps_unchanged :
   forall settings changes k,
     In k (map readout_key src_replace_carried) -> lookup k changes = None ->
     lookup k (derive (map readout_key src_replace_carried) settings changes) = lookup k settings.
-Proof. intros. apply derive_keeps; assumption. Qed.
+Proof. exact (derive_keeps (map readout_key src_replace_carried)). Qed.
 Print Assumptions C12_derived_keeps_unchanged.
 
 (* ... a changed one has the new value, ... *)
@@ -203,7 +196,7 @@ Theorem C12_derived_sets_changed :
   forall settings changes k v,
     In k (map readout_key src_replace_carried) -> lookup k changes = Some v ->
     lookup k (derive (map readout_key src_replace_carried) settings changes) = Some v.
-Proof. intros. eapply derive_sets; eassumption. Qed.
+Proof. exact (derive_sets (map readout_key src_replace_carried)). Qed.
 Print Assumptions C12_derived_sets_changed.
 
 (* ... and nothing else appears. *)
@@ -212,7 +205,7 @@ Theorem C12_derived_nothing_else :
     lookup k (derive (map readout_key src_replace_carried) settings changes) = Some w ->
     In k (map readout_key src_replace_carried) /\
     (lookup k changes = Some w \/ (lookup k changes = None /\ lookup k settings = Some w)).
-Proof. intros. eapply derive_nothing_else; eassumption. Qed.
+Proof. exact (derive_nothing_else (map readout_key src_replace_carried)). Qed.
 Print Assumptions C12_derived_nothing_else.
 
 (* composed with loading: whatever other keys a sweep changes, the readout setting the file wrote (or left to its
@@ -223,8 +216,8 @@ Theorem C12_sweep_keeps_file_settings :
     lookup (readout_key k) (derive (map readout_key src_replace_carried) (build kind_of_key defaults doc) changes)
     = lookup (readout_key k) (build kind_of_key defaults doc).
 Proof.
-  intros. apply (derived_keeps_file_setting kind_of_key src_readout_params); try assumption.
-  vm_compute. reflexivity.
+  intros defaults doc changes k.
+  apply (derived_keeps_file_setting kind_of_key src_readout_params). vm_compute. reflexivity.
 Qed.
 Print Assumptions C12_sweep_keeps_file_settings.
 
